@@ -16,7 +16,8 @@ CODE_GROUPS = [("c02_code_des", ["PasslibVerif.Props.C02CodeDes", "PasslibVerif.
                ("c02_code_iter", ["PasslibVerif.Props.C02CodeIter", "PasslibVerif.Props.C02CodeIterSun", "PasslibVerif.Props.C02CodeIterExamples", "PasslibVerif.Props.C02CodeIterExamples2"],
                 "code-model-iterated-digests"),
                ("c02_code_digest", ["PasslibVerif.Props.C02CodeDigest", "PasslibVerif.Props.C02CodeDigestKdf", "PasslibVerif.Props.C02CodeDigestKdfExamples",
-                                    "PasslibVerif.Props.C02CodeDigestKdfExamples2", "PasslibVerif.Props.C02CodeDigestKdfExamples3"], "code-model-digest-family")]
+                                    "PasslibVerif.Props.C02CodeDigestKdfExamples2", "PasslibVerif.Props.C02CodeDigestKdfExamples3"], "code-model-digest-family"),
+               ("c02_code_wrap", ["PasslibVerif.Props.C02CodeWrap", "PasslibVerif.Props.C02CodeWrapLaws"], "code-model-wrappers-and-bcrypt-prehash")]
 LEAN_TARGETS += [t for g in CODE_GROUPS for t in g[1]]
 ASSUMPTIONS = [
     "hashlib's MD5/SHA-256/SHA-512 are external C code: the theorems are about passlib's control structure over the FIPS 180-4 / RFC 1321 "
